@@ -240,6 +240,9 @@ func (s *scheduler) quiesce() int {
 		if t != me && !t.done && !t.daemon {
 			n++
 		}
+		if t != me && t.done {
+			me.vc.join(t.vc) // observing that a goroutine has ended orders its effects before the observer
+		}
 	}
 	return n
 }
